@@ -99,6 +99,14 @@ def rexpr(node, env, mode='R', hooks=None):
             return '(%s * PI / 180)' % rexpr(node.args[0], env, mode, hooks)
         if nm in ('rad2deg', 'degrees') and len(node.args) == 1:
             return '(%s * 180 / PI)' % rexpr(node.args[0], env, mode, hooks)
+        # guards against rounding: np.minimum / np.maximum / np.clip(x, lo, hi) are Rmin / Rmax over the reals (the theorems
+        # then have to show that the guard is the identity on the exact value)
+        if nm in ('minimum', 'maximum') and len(node.args) == 2:
+            return '(%s %s %s)' % ('Rmin' if nm == 'minimum' else 'Rmax', rexpr(node.args[0], env, mode, hooks),
+                                   rexpr(node.args[1], env, mode, hooks))
+        if nm == 'clip' and len(node.args) == 3:
+            return '(Rmax %s (Rmin %s %s))' % (rexpr(node.args[1], env, mode, hooks), rexpr(node.args[0], env, mode, hooks),
+                                               rexpr(node.args[2], env, mode, hooks))
         if nm == 'arctan2' and len(node.args) == 2:
             if 'arctan2' not in env:
                 raise Unrecognised('arctan2 not expected here')
